@@ -33,7 +33,8 @@ CONSTANTS
     ReqVals,        \* requested amounts of redemption requests
     TreasVals,      \* treasury fees of redemption requests
     Fees,           \* proposed total transaction fees
-    Shapes,         \* subset of {"default", "first", "last"} (redemption change position)
+    Shapes,         \* subset of {"default", "first", "last"}: redemption change position; "default" =
+                    \* the configuration of the production action (newRedemptionAction: ChangeFirst)
     DepKindPatterns,\* sequences (length MaxK) of deposit funding-output kinds
     LabelPatterns   \* sequences (length MaxK) of redeemer-script / target-wallet labels
 
